@@ -270,4 +270,248 @@ theorem splice_one (ts : List Tok) (A : St) (m : Atom) (block : List Tok) (C : M
     have hCe : C.evs = c.evs := by rw [← hC]; rfl
     simp only [St.mol, Mol.graft, hidx, hfind, hAa, hAd, hEt, hEd, hCa, hCe, fa, fe]
 
+/-! ### the N-linkage block `N(` child without its first atom `)` -/
+
+theorem ShapeList.refl (ts : List Tok) : ShapeList ts ts := by
+  induction ts with
+  | nil => exact ShapeList.nil
+  | cons t ts ih => exact ShapeList.cons (Or.inl rfl) ih
+
+/-- extra entries at the bottom of the branch stack are not looked at by a run that succeeds without them -/
+theorem step_stackFrame (s s' : St) (t : Tok) (ex : List Nat) (h : step s t = some s') :
+    step { s with stack := s.stack ++ ex } t = some { s' with stack := s'.stack ++ ex } := by
+  obtain ⟨sa, se, sp, ss, sq, so⟩ := s
+  cases t with
+  | atom a => simp only [step] at h ⊢; injection h with h; subst h; rfl
+  | bond b => cases sp <;> cases sq <;> simp [step] at h ⊢; subst h; simp
+  | lpar => cases sp <;> cases sq <;> simp [step] at h ⊢; subst h; simp
+  | rpar => cases ss <;> cases sq <;> simp [step] at h ⊢; subst h; simp
+  | ring l =>
+    cases sp with
+    | none => simp [step] at h
+    | some p =>
+      simp only [step] at h ⊢
+      cases hl : lookupLabel l so with
+      | none => simp only [hl] at h ⊢; injection h with h; subst h; rfl
+      | some v => simp only [hl] at h ⊢; injection h with h; subst h; rfl
+
+theorem run_stackFrame (ts : List Tok) (s s' : St) (ex : List Nat) (h : run s ts = some s') :
+    run { s with stack := s.stack ++ ex } ts = some { s' with stack := s'.stack ++ ex } := by
+  induction ts generalizing s with
+  | nil => simp only [run] at h ⊢; injection h with h; subst h; rfl
+  | cons t ts ih =>
+    simp only [run] at h ⊢
+    cases hs : step s t with
+    | none => simp [hs] at h
+    | some s1 =>
+      simp only [hs] at h
+      rw [step_stackFrame s s1 t ex hs]
+      exact ih s1 h
+
+/-- If `c0 C'` is a closed block denoting `C`, then `N ( C' )` is a closed block denoting `C` with its first atom replaced by
+    `N` (`nCap`): the same bond events, the same atom numbering. -/
+theorem nblock (block : List Tok) (C : Mol) (hb : BlockOK block C) : BlockOK (blockOf true block) (nCap C) := by
+  obtain ⟨c0, C', c, hblk, hc, hcs, hco, hcp, hC⟩ := hb
+  subst hblk
+  -- the block run on its own: first atom, then the rest
+  simp only [run, step, St.init] at hc
+  let s0 : St := ⟨[c0], [], some 0, [], none, []⟩
+  let n0 : St := ⟨[['N']], [], some 0, [], none, []⟩
+  have hc' : run s0 C' = some c := by simpa [s0] using hc
+  have hsb : SameBonds s0 n0 := by simp [SameBonds, s0, n0]
+  obtain ⟨c1, hc1, hb1⟩ := run_shape C' C' (ShapeList.refl C') s0 n0 c hsb hc'
+  obtain ⟨e1, e2, e3, e4, e5, e6⟩ := hb1
+  have hfr := run_stackFrame C' n0 c1 [0] hc1
+  have ha : c.atoms = [c0] ++ atomsOf C' := by simpa [s0] using run_atoms C' s0 c hc'
+  have ha1 : c1.atoms = [['N']] ++ atomsOf C' := by simpa [n0] using run_atoms C' n0 c1 hc1
+  refine ⟨['N'], Tok.lpar :: (C' ++ [Tok.rpar]), { c1 with prev := some 0 }, ?_, ?_, ?_, ?_, ?_, ?_⟩
+  · simp [blockOf]
+  · simp only [blockOf, if_true, List.drop_one, List.tail_cons, run, step, St.init]
+    have : ({ atoms := [] ++ [['N']], evs := [] ++ [], prev := some 0, stack := [], pend := none, opens := [] } : St) = n0 := by
+      simp [n0]
+    simp only [List.length_nil, this]
+    have hn0 : ({ n0 with stack := 0 :: n0.stack } : St) = { n0 with stack := n0.stack ++ [0] } := by simp [n0]
+    show run { n0 with stack := 0 :: n0.stack } (C' ++ [Tok.rpar]) = _
+    rw [hn0, run_append, hfr]
+    simp only [Option.bind_some, run, step, e3, hcs, e4, hcp, List.nil_append]
+  · simp [e3, hcs]
+  · simp [e5, hco]
+  · simp [e4, hcp]
+  · rw [← hC]
+    simp [St.mol, nCap, e1, ha, ha1]
+
+/-! ### a splice at one marker keeps the slots of the other markers -/
+
+theorem leafPost_of_append_atom (a : List Tok) (x : Atom) (r : List Tok) (h : LeafPost (a ++ [Tok.atom x] ++ r)) :
+    ∃ a', a = Tok.rpar :: a' := by
+  cases a with
+  | nil =>
+    rcases h with h | ⟨q, h⟩
+    · simp at h
+    · simp at h
+  | cons t a' =>
+    rcases h with h | ⟨q, h⟩
+    · simp at h
+    · simp at h; exact ⟨a', by rw [h.1]⟩
+
+theorem slot_preserved (ts : List Tok) (m m' : Atom) (L : List Nat) (block' : List Tok) (C' : Mol)
+    (hne : m ≠ m') (hs : Slot ts m L) (hs' : Slot ts m' (labelsOf block')) (hb : BlockOK block' C')
+    (hfree : Tok.atom m ∉ block') :
+    Slot (substTok m' block' ts) m L := by
+  obtain ⟨pre, post, S, p, hts, hm1, hm2, hleaf, hpre, hp, hlab⟩ := hs
+  obtain ⟨pre', post', S', p', hts', hm1', hm2', hleaf', hpre', hp', hlab'⟩ := hs'
+  have hneT : Tok.atom m ≠ Tok.atom m' := fun e => hne (by injection e)
+  have heq : pre ++ ([Tok.atom m] ++ post) = pre' ++ ([Tok.atom m'] ++ post') := by
+    rw [← List.append_assoc, ← List.append_assoc, ← hts, ← hts']
+  rcases List.append_eq_append_iff.mp heq with ⟨a', e1, e2⟩ | ⟨c', e1, e2⟩
+  · -- m' sits after m
+    cases a' with
+    | nil => simp at e2; exact absurd e2.1 hne
+    | cons x a'' =>
+      simp only [List.cons_append, List.nil_append, List.cons.injEq] at e2
+      obtain ⟨hx, e2⟩ := e2
+      subst hx
+      -- post = a'' ++ [m'] ++ post'
+      have hpost : post = a'' ++ [Tok.atom m'] ++ post' := by simpa using e2
+      obtain ⟨a3, ha3⟩ := leafPost_of_append_atom a'' m' post' (hpost ▸ hleaf)
+      have hm'a : Tok.atom m' ∉ a'' := by
+        intro hm; apply hm1'; rw [e1]; simp [hm]
+      have hm'pre : Tok.atom m' ∉ pre := by
+        intro hm; apply hm1'; rw [e1]; simp [hm]
+      have hnew : substTok m' block' ts = pre ++ [Tok.atom m] ++ (a'' ++ block' ++ post') := by
+        rw [hts, hpost, substTok_append, substTok_append, substTok_id m' _ pre hm'pre, substTok_single,
+          if_neg hneT, substTok_split m' _ a'' post' hm'a hm2']
+      refine ⟨pre, a'' ++ block' ++ post', S, p, hnew, hm1, ?_, ?_, hpre, hp, hlab⟩
+      · intro hm
+        simp only [List.mem_append] at hm
+        rcases hm with (hm | hm) | hm
+        · exact hm2 (by rw [hpost]; simp [hm])
+        · exact hfree hm
+        · exact hm2 (by rw [hpost]; simp [hm])
+      · exact Or.inr ⟨a3 ++ block' ++ post', by rw [ha3]; simp⟩
+  · -- m' sits before m
+    cases c' with
+    | nil => simp at e2; exact absurd e2.1.symm hne
+    | cons x c'' =>
+      simp only [List.cons_append, List.nil_append, List.cons.injEq] at e2
+      obtain ⟨hx, e2⟩ := e2
+      subst hx
+      have hpost' : post' = c'' ++ [Tok.atom m] ++ post := by simpa using e2
+      have hpreq : pre = pre' ++ [Tok.atom m'] ++ c'' := by simpa using e1
+      obtain ⟨c3, hc3⟩ := leafPost_of_append_atom c'' m post (hpost' ▸ hleaf')
+      have hm'c : Tok.atom m' ∉ c'' := by
+        intro hm; apply hm2'; rw [hpost']; simp [hm]
+      have hm'post : Tok.atom m' ∉ post := by
+        intro hm; apply hm2'; rw [hpost']; simp [hm]
+      have hnew : substTok m' block' ts = (pre' ++ block' ++ c'') ++ [Tok.atom m] ++ post := by
+        rw [hts, hpreq, substTok_append, substTok_append, substTok_split m' _ pre' c'' hm1' hm'c, substTok_single,
+          if_neg hneT, substTok_id m' _ post hm'post]
+      obtain ⟨c0, Cb, c, hblk, hc, hcs, hco, hcp, _⟩ := hb
+      subst hblk
+      have hlabb : ∀ l ∈ labelsOf Cb, lookupLabel l S'.opens = none := by
+        intro l hl; exact hlab' l (by simpa [labelsOf] using hl)
+      have hA : run St.init (pre' ++ [Tok.atom m'] ++ c'') = some S := by rw [← hpreq]; exact hpre
+      obtain ⟨B, as, es, hB, _, _, _, _, _, fo, _⟩ :=
+        graft pre' c'' Cb m' c0 S' S c p' hpre' hp' hA (Or.inr ⟨c3, hc3⟩) hc ⟨hcs, hco, hcp⟩ hlabb
+      have hBprev : B.prev.isSome = true := by
+        rw [List.append_assoc, run_append, hpre'] at hB
+        simp only [Option.bind_some] at hB
+        exact run_prev _ S' B (by simp [hp']) hB
+      obtain ⟨q, hq⟩ := Option.isSome_iff_exists.mp hBprev
+      refine ⟨pre' ++ (Tok.atom c0 :: Cb) ++ c'', post, B, q, hnew, ?_, hm2, hleaf, hB, hq, ?_⟩
+      · intro hm
+        simp only [List.mem_append] at hm
+        rcases hm with (hm | hm) | hm
+        · exact hm1 (by rw [hpreq]; simp [hm])
+        · exact hfree hm
+        · exact hm1 (by rw [hpreq]; simp [hm])
+      · intro l hl
+        rw [fo, lookupLabel_map, hlab l hl]; rfl
+
+/-! ### the loop over the children of one residue -/
+
+def substAll : List (Atom × List Tok) → List Tok → List Tok
+  | [], ts => ts
+  | (m, b) :: rest, ts => substAll rest (substTok m b ts)
+
+def graftAll : List (Atom × Mol) → Mol → Mol
+  | [], P => P
+  | (m, C) :: rest, P => graftAll rest (P.graft (P.atoms.idxOf m) C)
+
+theorem mem_substTok (m : Atom) (b ts : List Tok) (t : Tok) (h : t ∈ substTok m b ts) : (t ∈ ts ∧ t ≠ Tok.atom m) ∨ t ∈ b := by
+  simp only [substTok, List.mem_flatMap] at h
+  obtain ⟨x, hx, ht⟩ := h
+  by_cases hxm : x = Tok.atom m
+  · simp only [hxm, if_true] at ht; exact Or.inr ht
+  · simp only [hxm, if_false, List.mem_singleton] at ht; subst ht; exact Or.inl ⟨hx, hxm⟩
+
+theorem slot_head (ts : List Tok) (m : Atom) (L : List Nat) (b : List Tok) (hs : Slot ts m L) (h : startsWithAtom ts = true) :
+    startsWithAtom (substTok m b ts) = true := by
+  obtain ⟨pre, post, S, p, hts, hm1, hm2, _, hpre, hp, _⟩ := hs
+  cases pre with
+  | nil => simp [run, St.init] at hpre; subst hpre; simp at hp
+  | cons x pre' =>
+    rw [hts, substTok_split m b _ post hm1 hm2]
+    rw [hts] at h
+    cases x <;> simp [startsWithAtom] at h ⊢
+
+/-- **All children of one residue.** Every child's marker has a slot in the residue's string, the markers are pairwise
+    different, every block is a closed block free of marker atoms: then substituting all of them – in any order in which
+    the list is given – yields a SMILES denoting the residue's molecule with every child grafted at its marker, and no
+    marker atom is left. -/
+theorem loop (isMk : Atom → Bool) (items : List (Atom × List Tok × Mol)) :
+    ∀ (ts : List Tok) (A : St), run St.init ts = some A →
+    (∀ it ∈ items, Slot ts it.1 (labelsOf it.2.1)) →
+    (items.map (·.1)).Pairwise (· ≠ ·) →
+    (∀ it ∈ items, isMk it.1 = true) →
+    (∀ it ∈ items, ∀ a, isMk a = true → Tok.atom a ∉ it.2.1) →
+    (∀ it ∈ items, BlockOK it.2.1 it.2.2) →
+    (∀ a, isMk a = true → Tok.atom a ∈ ts → a ∈ items.map (·.1)) →
+    startsWithAtom ts = true →
+    ∃ B, run St.init (substAll (items.map fun it => (it.1, it.2.1)) ts) = some B ∧ B.closed = A.closed ∧
+      B.mol = graftAll (items.map fun it => (it.1, it.2.2)) A.mol ∧
+      (∀ a, isMk a = true → Tok.atom a ∉ substAll (items.map fun it => (it.1, it.2.1)) ts) ∧
+      startsWithAtom (substAll (items.map fun it => (it.1, it.2.1)) ts) = true := by
+  induction items with
+  | nil =>
+    intro ts A hA _ _ _ _ _ hmk hst
+    refine ⟨A, by simpa [substAll] using hA, rfl, by simp [graftAll], ?_, by simpa [substAll] using hst⟩
+    intro a ha hm
+    have := hmk a ha (by simpa [substAll] using hm)
+    simp at this
+  | cons it rest ih =>
+    obtain ⟨m, b, C⟩ := it
+    intro ts A hA hslots hpw hismk hfree hblocks hmk hst
+    have hslot := hslots (m, b, C) (by simp)
+    have hblk := hblocks (m, b, C) (by simp)
+    obtain ⟨B1, hB1, hcl1, hmol1⟩ := splice_one ts A m b C hA hslot hblk
+    simp only [List.map_cons, List.pairwise_cons] at hpw
+    obtain ⟨hne, hpw'⟩ := hpw
+    have hmfree : ∀ it' ∈ rest, Tok.atom it'.1 ∉ b := by
+      intro it' hit'
+      exact hfree (m, b, C) (by simp) it'.1 (hismk it' (by simp [hit']))
+    have := ih (substTok m b ts) B1 hB1
+      (by
+        intro it' hit'
+        have hne' : it'.1 ≠ m := fun e => hne it'.1 (List.mem_map.mpr ⟨it', hit', rfl⟩) e.symm
+        exact slot_preserved ts it'.1 m _ b C hne' (hslots it' (by simp [hit'])) hslot hblk (hmfree it' hit'))
+      hpw'
+      (fun it' hit' => hismk it' (by simp [hit']))
+      (fun it' hit' => hfree it' (by simp [hit']))
+      (fun it' hit' => hblocks it' (by simp [hit']))
+      (by
+        intro a ha hmem
+        rcases mem_substTok m b ts _ hmem with ⟨h1, h2⟩ | h1
+        · have := hmk a ha h1
+          simp only [List.map_cons, List.mem_cons] at this
+          rcases this with rfl | this
+          · exact absurd rfl h2
+          · exact this
+        · exact absurd h1 (hfree (m, b, C) (by simp) a ha))
+      (slot_head ts m _ b hslot hst)
+    obtain ⟨B, hB, hcl, hmol, hnomk, hst'⟩ := this
+    refine ⟨B, by simpa [substAll] using hB, by rw [hcl, hcl1], ?_, by simpa [substAll] using hnomk, by simpa [substAll] using hst'⟩
+    simp only [List.map_cons, graftAll]
+    rw [hmol, hmol1]; rfl
+
 end Gly.Smi
